@@ -243,7 +243,9 @@ class Connection(Stateful):
         """
         LOGGER.debug('Connection Opening')
         self.set_state(self.OPENING)
-        self._exceptions = []
+        # Clear in place: the IO and Heartbeat handlers hold a reference to
+        # this list and report transport errors through it.
+        del self._exceptions[:]
         self._channels = {}
         self._last_channel_id = None
         self._io.open()
